@@ -1,8 +1,12 @@
 #!/bin/bash
-# runs every claimed check (quick tier by default) one after the other; prints exit code and wall time
-tier=${1:-quick}
+# runs every claimed check (quick tier by default), N properties at a time (default 1); prints exit code and wall time
+# usage: vc/run_all.sh [quick|thorough] [parallel properties]
+tier=${1:-quick}; par=${2:-1}
 cd "$(dirname "$0")/.."
-for p in $(python3 -c "import json;print(' '.join(c['property_id'] for c in json.load(open('MANIFEST.json'))['checks']))"); do
-  s=$(date +%s); ./check $p --tier $tier > /tmp/all_$p.log 2>&1; rc=$?; e=$(date +%s)
-  echo "$p rc=$rc $((e-s))s $(grep -a -c KNOWN-FINDING /tmp/all_$p.log) known $(grep -a -c '^VIOLATION' /tmp/all_$p.log) violations"
-done
+one() {
+  p=$1; tier=$2
+  s=$(date +%s); ./check $p --tier $tier > /tmp/all_${tier}_$p.log 2>&1; rc=$?; e=$(date +%s)
+  echo "$p rc=$rc $((e-s))s $(grep -a -c KNOWN-FINDING /tmp/all_${tier}_$p.log) known $(grep -a -c '^VIOLATION' /tmp/all_${tier}_$p.log) violations $(grep -a -c '^UNDECIDED' /tmp/all_${tier}_$p.log) undecided"
+}
+export -f one
+python3 -c "import json;print('\n'.join(c['property_id'] for c in json.load(open('MANIFEST.json'))['checks']))" | xargs -P $par -I{} bash -c "one {} $tier"
